@@ -72,11 +72,7 @@ def gen_case(rng, quick, psmin_of, family=None):
         ss.append([[dy(v) for v in pts[i]], 1 if (not hasSel or rng.random() < .75) else 0,
                    dy(w) if hasW else [], dy(date) if hasDate else [], [dy(v) for v in z]])
     dirs = [gen_dir(rng, ndim, psmin_of, quick) for _ in range(rng.choice([1, 1, 2, 3]))]
-    # by-sample algorithm: _setResult writes through a file-static direction index that this algorithm never sets.
-    # One direction (index primed to 0 by the harness) for the correspondence; two directions of EQUAL size (no out-of-bounds
-    # write) to exhibit the defect on results.
-    if fam in ('covg', 'bysample'): dirs = dirs[:1]
-    if fam == 'bysample2dir':
+    if fam == 'bysample2dir':     # two directions of equal size (regression case of the stale direction index of the by-sample algorithm)
         dirs = [gen_dir(rng, ndim, psmin_of, quick) for _ in range(2)]; dirs[1][0] = dirs[0][0]
     dates = []
     if hasDate:
@@ -135,14 +131,18 @@ def cmp_impl_impl(b1, b2, what):
     return None
 
 # ------------------------------------------------------------------------------------------- exact helpers on a case (python side, for keys only)
-def case_has_dproj0(c, idir):
+def case_undirected(c, idir):
+    """(has a pair of coincident usable samples, has a non-coincident usable pair orthogonal to the direction)"""
     d = c[6][idir]; codir = [undy(v) for v in d[5]]
     act = [s for s in c[5] if (not c[4][0]) or s[1]]
     xs = [[undy(v) for v in s[0]] for s in act]
+    coinc = ortho = False
     for i in range(len(xs)):
         for j in range(i + 1, len(xs)):
-            if sum((xs[j][k] - xs[i][k]) * codir[k] for k in range(len(codir))) == 0: return True
-    return False
+            dl = [xs[j][k] - xs[i][k] for k in range(len(codir))]
+            if all(v == 0 for v in dl): coinc = True
+            elif sum(dl[k] * codir[k] for k in range(len(codir))) == 0: ortho = True
+    return coinc, ortho
 
 def case_has_na(c): return any(v == [] for s in c[5] for v in s[4])
 
@@ -159,25 +159,30 @@ def generic_key(c, idir):
     if case_has_na(c): feats.append('na')
     return 'impl-vs-spec:%s:%s' % (CALC[c[2]], '+'.join(feats) or 'plain')
 
-def classify(c, idir, m=None, model_agrees=True):
+def classify(c, idir, model_agrees):
     """canonical key of the call site / option combination of a (shrunk) witness where impl violates the pairwise definition.
-       The keys of the defects that the model reproduces are only used when the model does reproduce the implementation on the
-       witness; anything else gets a key built from the estimator and the options in use."""
+       model_agrees: the model (which mirrors the current, fixed code) reproduces the implementation, i.e. the deviation from the
+       definition is one the model has too: only the residual orientation of pairs orthogonal to the direction is of that kind.
+       Otherwise the implementation left the model as well: the keys of the defects cured by fixes/C12_1..5 are given back to the
+       option combinations they lived in (regression), anything else gets a key built from the estimator and the options in use."""
     calc = c[2]; nvar = c[4][3]
-    if (c[3] or calc == 2) and len(c[6]) > 1: return 'generalSolution2:IDIRLOC-not-set'      # not modelled: stale file-static index
-    if not model_agrees: return generic_key(c, idir)
+    if model_agrees:
+        if calc in ASYM and nvar > 1 and case_undirected(c, idir)[1]: return 'evaluateCovariance:undirected-pair-orientation'
+        return generic_key(c, idir)
+    if (c[3] or calc == 2) and len(c[6]) > 1: return 'generalSolution2:IDIRLOC-not-set'
     if c[7]:
         big = F(10) ** 30
         d0, d1 = undy(c[7][0]), undy(c[7][1])
         if d0 > -big or d1 < big: return 'getSampleAsSTInPlace:date-stored-as-code'
         if c[4][2]:
-            # m = model result of this direction: m[1] faithful model, m[3] the same loop without the 1-D break
-            if m is not None and m[3] != [] and m[3] != m[1]: return 'generalSolution:dates-break'
-            return 'generalSolution:dates-loop-bounds'
+            d = c[6][idir]; md = undy(d[1]) * (d[0] + undy(d[2]))
+            x1 = [undy(s[0][0]) for s in c[5] if (not c[4][0]) or s[1]]
+            return 'generalSolution:dates-break' if x1 and max(x1) - min(x1) > md else 'generalSolution:dates-loop-bounds'
     if c[3] or calc == 2: return 'generalSolution2:accumulators-not-reset'
     if calc == 5: return 'getStatistics:mean-loop-bound'
     if calc in ASYM and nvar > 1:
-        if case_has_dproj0(c, idir): return 'evaluateCovariance:undirected-pair-orientation'
+        coinc, ortho = case_undirected(c, idir)
+        if coinc: return 'evaluateCovariance:undirected-pair-orientation'
         if case_has_na(c): return 'evaluateCovariance:heterotopic-test-on-first-variable'
     return generic_key(c, idir)
 
@@ -246,7 +251,7 @@ class Engine:
                 sb = [[cell_of_model(x) for x in blk] for blk in m[2]]
                 d_im = cmp_blocks(ib, mb); d_is = cmp_blocks(ib, sb)
                 if d_is is not None:
-                    vs.append({'status': 'impl-vs-spec', 'detail': d_is, 'model_agrees': d_im is None, 'key': classify(c, idir, m, d_im is None), 'impl': ib})
+                    vs.append({'status': 'impl-vs-spec', 'detail': d_is, 'model_agrees': d_im is None, 'key': classify(c, idir, d_im is None), 'impl': ib})
                 elif d_im is not None:
                     vs.append({'status': 'drift', 'detail': d_im, 'key': 'model-drift:computeFromDb:' + CALC[c[2]], 'impl': ib})
                 else:
@@ -457,12 +462,12 @@ def run(ctx):
         fkey = sv.get('key', key) if sv['status'] in ('impl-vs-spec', 'crash') else key
         if fkey != key and fkey in reported: return
         reported.add(fkey)
-        ctx.violation(fkey, '%s (%s, %d samples, %d variable(s)): %s%s' % (
+        rv = ctx.violation(fkey, '%s (%s, %d samples, %d variable(s)): %s%s' % (
                           'Vario::computeFromDb differs from the pairwise definition' if v['status'] != 'crash' else 'crash',
                           CALC[c[2]] + (' by-sample' if c[3] else ''), len(small[5]), small[4][3], sv.get('detail', v.get('detail')),
                           '' if v['status'] == 'crash' else (' [model reproduces the implementation]' if v.get('model_agrees') else ' [model differs too]')),
                       {'case': sx_str(small), 'direction': sd, 'how': 'one line of a case file for build/harness/C12 (impl) and build/ocaml/C12/runner (model, spec)'})
-        found_input = True
+        if rv == 'new': found_input = True
 
     for i, c in enumerate(cases):
         for idir, v in enumerate(vs[i]):
@@ -498,10 +503,10 @@ def run(ctx):
                 if w['status'] == 'impl-vs-spec': key = w['key']
             if key in reported: continue
             reported.add(key)
-            ctx.violation(key, 'Vario::computeFromDb is not invariant under %s of the %s: %s' % (
+            rv = ctx.violation(key, 'Vario::computeFromDb is not invariant under %s of the %s: %s' % (
                               m['meta'], 'samples' if m['meta'] == 'permutation' else ('coordinates' if m['meta'] == 'translation' else 'variables'), d),
                           {'case': sx_str(c), 'transformed': sx_str(cases[i]), 'direction': idir, 'relation': m['meta'], 'sig': m.get('sig')})
-            found_input = True
+            if rv == 'new': found_input = True
     ctx.cov['metamorphic_comparisons'] = nmeta
 
     # ... and as a DbGrid through the grid-specialised algorithm, compared with the general algorithm on impl
